@@ -24,6 +24,8 @@ pub mod crossbeam_channel {
     impl<T> Sender<T> {
         /// identity of the queue this sender feeds
         pub uninterp spec fn id(&self) -> int;
+        /// how many messages the queue holds before try_send reports Full (None: unbounded)
+        pub uninterp spec fn cap(&self) -> Option<int>;
         #[verifier::external_body]
         pub fn try_send(&self, item: T) -> (r: core::result::Result<(), TrySendError<T>>)
             requires permitted(self.id(), item),
@@ -48,9 +50,9 @@ pub mod crossbeam_channel {
         { unimplemented!() }
     }
     #[verifier::external_body]
-    pub fn unbounded<T>() -> (r: (Sender<T>, Receiver<T>)) ensures r.0.id() == r.1.id() { unimplemented!() }
+    pub fn unbounded<T>() -> (r: (Sender<T>, Receiver<T>)) ensures r.0.id() == r.1.id(), r.0.cap() is None { unimplemented!() }
     #[verifier::external_body]
-    pub fn bounded<T>(cap: usize) -> (r: (Sender<T>, Receiver<T>)) ensures r.0.id() == r.1.id() { unimplemented!() }
+    pub fn bounded<T>(cap: usize) -> (r: (Sender<T>, Receiver<T>)) ensures r.0.id() == r.1.id(), r.0.cap() == Some(cap as int) { unimplemented!() }
 }
 
 pub mod mio_extras {
@@ -94,9 +96,14 @@ pub mod mio_extras {
         impl<T> Timer<T> {
             /// some timeout has been set on this timer at some point (a timer never fires otherwise)
             pub uninterp spec fn armed(&self) -> bool;
+            /// the state values of the timeouts that are set and have neither fired nor been cancelled
+            pub uninterp spec fn pending(&self) -> vstd::multiset::Multiset<T>;
+            /// a timeout that fires is consumed
             #[verifier::external_body]
             pub fn poll(&mut self) -> (r: Option<T>)
                 ensures r is Some ==> old(self).armed(), final(self).armed() == old(self).armed(),
+                    r is Some ==> old(self).pending().count(r->0) > 0 && final(self).pending() == old(self).pending().remove(r->0),
+                    r is None ==> final(self).pending() == old(self).pending(),
             { unimplemented!() }
         }
     }
